@@ -155,13 +155,18 @@ def cases(tier, seed):
             if w == 8 and kind in ("tuple_acc", "exit_bool") and tier == "quick":
                 continue  # measured 100-300 s of solver time each: thorough tier only
             add(kind, w, True)
+    # 16-bit counter in the quick tier: literal exit points around the byte boundary of the counter, jets
+    # interpreted so that loop control folds (1.8 s - 40 s each)
+    for K in (0, 1, 2, 257):
+        add("exit_panic_after", 16, True, ctx_lit=K, validate=True)
     if tier == "thorough":
         # 16-bit counter: the exit point is a literal, so loop control folds to constants and only the
         # taken path is built.  Exit points up to 4095: a run to 32767 took 45 min in this (Python) engine,
         # the full 65536 iterations twice that - they are outside the tier and outside the claim.
         for K in (0, 1, 2, 255, 256, 257, 1023, 4095):
             add("exit", 16, False, ctx_lit=K, validate=False)
-            add("exit_panic_after", 16, True, ctx_lit=K, validate=(K < 1000))
+            if K not in (0, 1, 2, 257):
+                add("exit_panic_after", 16, True, ctx_lit=K, validate=(K < 1000))
     add("exit", 4, False, mut={"fw_no_stop"})
     add("exit_panic_after", 2, True, mut={"fw_no_stop"})
     add("exit", 4, False, mut={"fw_bitrev"})
@@ -177,7 +182,7 @@ def main():
         technique="SMT (z3, QF_UFBV) equivalence of the symbolically executed emitted Simplicity DAG and a source-level counter loop; exit iteration symbolic; accumulator updates uninterpreted",
         functions=["compile.rs: for_while (for_while_0, adapt_f, task stack), Call::compile (ForWhile)",
                    "ast.rs: for_while signature/typing (accepts the generated programs)", "compile.rs: Match::compile inside the body"],
-        bounds={"counter_bits": "1,2,4,8 with a symbolic exit iteration incl. never; 16 in thorough with the exit iteration given as one of 10 literals",
+        bounds={"counter_bits": "1,2,4,8 with a symbolic exit iteration incl. never; 16 with the exit iteration given as a literal (quick: 0, 1, 2, 257; thorough: 8 literals up to 4095)",
                 "bodies": ["exit when counter == ctx", "same + panic after the exit point", "result type differs from accumulator type",
                            "body ignores the counter", "tuple accumulator with unit context"]},
         outside=["16-bit counter with symbolic exit or with an exit after iteration 4095 (incl. never)", "loop bodies other than listed", "jet arithmetic (validated concretely only)"],
